@@ -187,7 +187,7 @@ func init() {
 			"'all per-connection goroutines have ended' is read as 'end without any further external event' (checked at quiescence, not at the instant Shutdown returns)",
 			"a handler may only be cancelled after the grace timer fired or after its client disconnected"},
 		Quick:    cat(db(100, B{{2, 0}, {3, 0}}, c16one...), db(100, B{{2, 0}}, c16two...), pb(100, B{{0, 0}, {1, 0}}, "shut-fast", "shut-late"), db(100, B{{4, 0}}, "shut-late"), pb(100, B{{0, 0}}, c16one...), pb(100, B{{0, 0}}, "shut-closeerr-slow", "shut-closeerr-fast")),
-		Thorough: cat(db(1500, B{{3, 0}, {4, 0}, {5, 0}}, c16one...), db(1500, B{{3, 0}}, c16two...), pb(1500, B{{0, 0}, {1, 0}, {2, 0}, {3, 0}}, c16one...), split(4, pb(1500, B{{0, 0}}, c16two...))),
+		Thorough: cat(db(1500, B{{3, 0}, {4, 0}, {5, 0}}, c16one...), db(1500, B{{3, 0}}, c16two...), pb(1500, B{{0, 0}, {1, 0}, {2, 0}, {3, 0}}, c16one...), split(4, pb(600, B{{0, 0}}, c16two...))),
 	}
 
 	plans["C15"] = Plan{
